@@ -212,6 +212,32 @@ def render_and_track(ck: Check, n: int):
                     ck.fail("rendered field is not finite", {"check": "render_finite", "class": cls}, case)
             except Exception as e:  # noqa: BLE001
                 ck.fail(f"rendering raised {type(e).__name__}: {e}", {"check": "render_total", "class": cls, "error": type(e).__name__}, case)
+    # sharp droplets with support points lying EXACTLY on their surface (centre on a cell centre, radius a whole number of
+    # cells; 3-4-5 offsets): the rendered value there is 0 or 1, never undefined
+    from pde import UnitGrid
+    from droplets.emulsions import Emulsion as _Em
+
+    for gridk, centre, radius in ((UnitGrid([6, 6]), [2.5, 2.5], 2.0), (UnitGrid([8]), [3.5], 2.0), (UnitGrid([12, 12]), [5.5, 5.5], 5.0),
+                                  (UnitGrid([7, 7, 7], periodic=True), [3.5, 3.5, 3.5], 3.0), (make_grid3(rng, "spherical"), [0.0, 0.0, 0.0], None),
+                                  (make_grid3(rng, "cyl"), None, None)):
+        gname = type(gridk).__name__
+        if gname == "SphericalSymGrid":
+            radius = float(gridk.axes_coords[0][2])
+        if gname == "CylindricalSymGrid":
+            zc = float(gridk.axes_coords[1][3])
+            centre, radius = [0.0, 0.0, zc], float(gridk.axes_coords[1][5] - gridk.axes_coords[1][3])
+        for cls in (D.SphericalDroplet, D.DiffuseDroplet):
+            d = cls(np.array(centre, float), radius) if cls is D.SphericalDroplet else cls(np.array(centre, float), radius, 0.0)
+            ck.case(("render-knife-edge", gname, cls.__name__, tuple(centre), radius))
+            ck.count("render_surface_through_support_points")
+            case = {"kind": "render-knife-edge", "grid": repr(gridk), "droplet": str(d)}
+            try:
+                for f in (d.get_phase_field(gridk), _Em([d]).get_phasefield(gridk)):
+                    if not np.all(np.isfinite(f.data)):
+                        ck.fail("rendered field of a sharp droplet is not finite where a support point lies on its surface", {"check": "render_finite", "class": cls.__name__}, case)
+                        break
+            except Exception as e:  # noqa: BLE001
+                ck.fail(f"rendering raised {type(e).__name__}: {e}", {"check": "render_total", "class": cls.__name__, "error": type(e).__name__}, case)
     for dim, n in ((2, 9), (3, 7), (3, 6)):
         grid = CartesianGrid([[0, n * 0.8]] * dim, [n] * dim, periodic=[rng.random() < 0.5 for _ in range(dim)])
         c = np.array([grid.axes_coords[a][n // 2] for a in range(dim)]) if n % 2 else np.array([grid.axes_bounds[a][0] + (n // 2) * 0.8 for a in range(dim)])
